@@ -281,8 +281,14 @@ def execute(case, exit_trace=False):
             tr_path = os.path.join(sc.base, "exit.trace")
             extra["STYLUA_VERIF_TRACE"] = tr_path
         argv = [a.replace("{ROOT}", sc.root) for a in case["argv"]]
+        # strace -P matches the path *string* a syscall passes (plus the canonical form), so the faulted
+        # file is named in every spelling the walker can produce for it: x, ./x and absolute
+        spelled = []
+        for path, expr in inject:
+            rel = os.path.normpath(path)
+            spelled += [(rel, expr), ("./" + rel, expr), (os.path.join(sc.root, rel), expr)]
         run = clilib.run_cli(argv, sc.root, sc.env(extra), strace=have_strace and not inject,
-                             inject=inject or None, timeout=60)
+                             inject=spelled or None, timeout=60)
         after = clilib.snapshot(sc.root)
         trace = []
         if tr_path and os.path.exists(tr_path):
